@@ -133,6 +133,9 @@ func genProfile(r *rand.Rand) *profile.Profile {
 		if r.Intn(3) == 0 {
 			m.HasFilenames = true
 		}
+		if r.Intn(4) == 0 {
+			m.HasLineNumbers = true
+		}
 		m.BuildID = []string{"", "id1"}[r.Intn(2)]
 	}
 	nf := 1 + r.Intn(5)
@@ -232,9 +235,13 @@ func oneRun(seed int64, mode string, failAt int) runOut {
 		return runOut{msg: "generator: " + err.Error()}
 	}
 	before := snap(p)
+	// "already carries symbols": has_functions for every source; for the local object-file path
+	// any of has_functions / has_filenames / has_line_numbers (the symbol service only looks at
+	// has_functions, so the wider rule is applied when the mode excludes it)
+	localOnly := strings.Contains(mode, "local") && !strings.Contains(mode, "remote")
 	linesBefore := map[uint64]string{}
 	for _, l := range p.Location {
-		if l.Mapping != nil && (l.Mapping.HasFunctions) {
+		if m := l.Mapping; m != nil && (m.HasFunctions || (localOnly && (m.HasFilenames || m.HasLineNumbers))) {
 			linesBefore[l.ID] = fmt.Sprint(l.Line)
 		}
 	}
@@ -294,7 +301,7 @@ func oneRun(seed int64, mode string, failAt int) runOut {
 		if !force {
 			for _, l := range p.Location {
 				if w, ok := linesBefore[l.ID]; ok && fmt.Sprint(l.Line) != w {
-					out.msg = fmt.Sprintf("%s: location %d belongs to a mapping that already had symbols (has_functions) and force was not requested, but its lines changed from %s to %v", ctx, l.ID, w, l.Line)
+					out.msg = fmt.Sprintf("%s: location %d belongs to a mapping that already carried symbols (has_functions, or for local-only modes has_filenames / has_line_numbers) and force was not requested, but its lines changed from %s to %v", ctx, l.ID, w, l.Line)
 					break
 				}
 			}
@@ -433,10 +440,11 @@ func runDriver(c *harness.Ctx) harness.Result {
 		byID[l.ID] = l
 	}
 	if !force {
+		localOnly := strings.Contains(mode, "local") && !strings.Contains(mode, "remote")
 		for _, l := range p.Location {
-			if l.Mapping != nil && l.Mapping.HasFunctions {
+			if m := l.Mapping; m != nil && (m.HasFunctions || (localOnly && (m.HasFilenames || m.HasLineNumbers))) {
 				if g := byID[l.ID]; g == nil || lineSig(g) != lineSig(l) {
-					return harness.Violation("%s: location %d belongs to a mapping that already had symbols (has_functions) and force was not requested, but its lines changed from %s to %s", ctx, l.ID, lineSig(l), lineSig(g))
+					return harness.Violation("%s: location %d belongs to a mapping that already carried symbols (has_functions, or for local-only modes has_filenames / has_line_numbers) and force was not requested, but its lines changed from %s to %s", ctx, l.ID, lineSig(l), lineSig(g))
 				}
 			}
 		}
@@ -458,7 +466,7 @@ func init() {
 		ID:    "C12",
 		Level: "fault_enumeration",
 		Rule: "partly symbolized profiles (sparse and colliding function ids incl. id == len+1, several mappings incl. fake/vdso/http ones and two mappings reported at the same address range, unmapped locations whose address equals a mapped one, addresses at mapping edges, folded locations) x 16 mode strings (local, fastlocal, remote, none, force, demangle=*, combinations, unknown) x scripted ObjTool and symbolz endpoint answering deterministically from a seed: open failure, wrong/equal build id, empty/error/1-3 inline frames with hostile names, HTTP 500, empty, garbage, partial answers, extra addresses, overflowing addresses, adjusted source offsets; then the same run repeated with a failure injected at EVERY call index 1..N of the scripted sequence. " +
-			"part driver: the same profiles, modes and scripted tools through the real driver (pprof -symbolize=<mode> -proto <source>, optional failure at a random call index): the saved profile is compared with the input by the same rules (mapping file path and build id excepted, which the driver fills in from the binaries it opens). oracle: snapshot frame condition (samples, values, labels, stack depth and order, location addresses, mapping ranges unchanged), independent validity + unique ids, lines of has_functions mappings untouched unless force, no non-empty name becomes empty. non-trivial = the plug-ins were called at least once; distinct = (mode, scripted sequence)",
+			"part driver: the same profiles, modes and scripted tools through the real driver (pprof -symbolize=<mode> -proto <source>, optional failure at a random call index): the saved profile is compared with the input by the same rules (mapping file path and build id excepted, which the driver fills in from the binaries it opens). oracle: snapshot frame condition (samples, values, labels, stack depth and order, location addresses, mapping ranges unchanged), independent validity + unique ids, lines of mappings that already carry symbols (has_functions; for local-only modes also has_filenames / has_line_numbers) untouched unless force, no non-empty name becomes empty. non-trivial = the plug-ins were called at least once; distinct = (mode, scripted sequence)",
 		Assumptions:   []string{"function ids below 2^62 (new ids are allocated above the largest one)", "fail-at-call-k is exhaustive over the calls of each scripted sequence; the sequences themselves are sampled"},
 		Parts:         []harness.Part{{Name: "symbolize", Quick: 6000, Thor: 300000, Run: run}, {Name: "driver", Quick: 1500, Thor: 60000, Run: runDriver}},
 		MinNonTrivial: func(string) int { return 50 },
